@@ -419,15 +419,37 @@ def prop_fock(case, ctx):
 def gauss_case(draw):
     d = draw(st.integers(1, 3))
     names = progs.PASSIVE + ["Squeezing", "Squeezing", "Displacement", "Squeezing2"]
-    gates = draw(st.lists(progs.gate(d, names, scale=0.7), min_size=1, max_size=4))
+    gates = draw(st.lists(progs.gate(d, names, scale=0.9), min_size=1, max_size=4))
     sq = draw(progs.gate(d, ["Squeezing"], scale=0.9))
     gates = [sq] + gates
+    regime = "pure"
+    if d >= 2 and draw(st.booleans()):
+        # mixed multi-mode states by construction ("with loss"): unequal squeezing on every
+        # mode, unequal attenuation (optionally thermal) on at least two modes, then gates
+        # that mix the modes, so that the Williamson factors of the measured state do not
+        # commute (a pure, a single-mode or a product state cannot tell S sqrt(D-1) from
+        # sqrt(D-1) S)
+        regime = "lossy_mixed"
+        rs = draw(st.permutations([0.25, 0.45, 0.65]))
+        gates = [{"g": "Squeezing", "modes": [m], "p": {"r": rs[m], "phi": draw(progs.angle())}}
+                 for m in range(d)]
+        gates.append(draw(progs.gate(d, ["Beamsplitter", "Interferometer"], scale=0.7)))
+        thetas = draw(st.permutations([0.3, 0.7, 1.1]))
+        nbars = draw(st.permutations([0.0, 0.0, 0.4]))
+        for m in range(d):
+            gates.append({"g": "Attenuator", "modes": [m],
+                          "p": {"theta": thetas[m], "mean_thermal_excitation": nbars[m]}})
+        gates.append({"g": "Interferometer", "modes": list(range(d)),
+                      "p": {"kind": "haar", "seed": draw(st.integers(0, 2**16))}})
     meas = draw(st.sampled_from(["pnm", "pnm", "threshold", "threshold_tor", "imperfect"]))
     k = draw(st.integers(1, d))
     modes = sorted(draw(progs.ordered_modes(d, k))) if meas != "pnm" else draw(
         progs.ordered_modes(d, k))
     hbar = draw(st.sampled_from([1.0, 2.0, 2.0, 3.7]))
-    return {"d": d, "gates": gates, "meas": meas, "modes": modes, "hbar": hbar,
+    if regime == "lossy_mixed" and draw(st.booleans()):
+        modes = draw(st.permutations(list(range(d)))) if meas == "pnm" else list(range(d))
+    return {"d": d, "gates": gates, "meas": meas, "modes": list(modes), "hbar": hbar,
+            "regime": regime,
             "mcut": draw(st.sampled_from([5, 6, 7])), "dseed": draw(st.integers(0, 2**16))}
 
 
@@ -483,6 +505,7 @@ def prop_gauss(case, ctx):
         what = f"gaussian:{case['meas']}"
         ctx.case(case, nontrivial_dist(exact),
                  [f"G_{case['meas']}", f"G_hbar_{case['hbar']}",
+                  f"G_regime_{case.get('regime', 'pure')}",
                   "G_displaced" if any(g["g"] == "Displacement" for g in case["gates"])
                   else "G_zero_mean"])
         check_discrete(sampler, exact, what, ctx, n1)
